@@ -323,6 +323,41 @@ Proof.
     unfold matured. cbn. reflexivity.
 Qed.
 
+(* ---- MsgLockTokens and the composite messages ---- *)
+Lemma lock_tokens_cases : forall cfg st owner d amt dur st' id, lock_tokens cfg st owner d amt dur = Ok (st', id) ->
+  (find_existing st owner d dur (ids_upto (s_last st)) = Some id /\ add_tokens_to_lock cfg st owner id amt = Ok st') \/
+  (find_existing st owner d dur (ids_upto (s_last st)) = None /\ 0 < amt /\ 0 <= dur /\ id = s_last st + 1 /\
+   st' = set_last (put_lock st (s_last st + 1) (mkLock owner d amt dur 0)) (s_last st + 1)).
+Proof.
+  intros cfg st owner d amt dur st' id H. unfold lock_tokens in H.
+  destruct ((amt <=? 0) || (dur <? 0)) eqn:E; [discriminate|]. apply orb_false_iff in E. destruct E as [E1 E2].
+  apply Z.leb_gt in E1. apply Z.ltb_ge in E2.
+  destruct (find_existing st owner d dur (ids_upto (s_last st))) as [id0|].
+  - unfold bind in H. destruct (add_tokens_to_lock cfg st owner id0 amt) as [s|] eqn:E; [|discriminate].
+    injection H as <- <-. left. auto.
+  - injection H as <- <-. right. repeat split; assumption.
+Qed.
+
+Lemma lock_tokens_linv : forall cfg st owner d amt dur st' id, linv cfg st ->
+  lock_tokens cfg st owner d amt dur = Ok (st', id) -> linv cfg st'.
+Proof.
+  intros cfg st owner d amt dur st' id I H. apply lock_tokens_cases in H.
+  destruct H as [[_ H]|[_ [Ha [Hd [_ ->]]]]].
+  - eapply add_tokens_linv; eassumption.
+  - apply new_lock_linv; cbn; try assumption; lia.
+Qed.
+
+Lemma add_tokens_frame : forall cfg st owner id amt st', add_tokens_to_lock cfg st owner id amt = Ok st' ->
+  s_synths st' = s_synths st /\ s_now st' = s_now st /\ s_conn st' = s_conn st /\ s_last st' = s_last st.
+Proof.
+  intros cfg st owner id amt st' E. unfold add_tokens_to_lock in E. destruct (s_locks st id) as [l|]; [|discriminate].
+  destruct (negb (l_owner l =? owner)); [discriminate|]. destruct (amt <=? 0); [discriminate|].
+  unfold bind in E. destruct (synth_by_lock _ id) as [found|]; [|discriminate]. injection E as <-.
+  match goal with |- s_synths (increase_sf_delegation ?c ?s ?i ?l ?a) = _ /\ _ =>
+    destruct (increase_sf_frame c s i l a) as [Fr _]; apply lproj_fields in Fr; destruct Fr as [F1 [_ [F3 [F4 [F5 _]]]]]; rewrite F1, F3, F4, F5 end.
+  destruct found; repeat split; reflexivity.
+Qed.
+
 (* ---- every operation preserves the invariant ---- *)
 Theorem step_linv : forall cfg st o st' nid,
   wf_cfg cfg -> linv cfg st -> step cfg st o = Ok (st', nid) -> linv cfg st'.
@@ -335,6 +370,15 @@ Proof.
   - (* OTopUp *)
     destruct (add_tokens_to_lock cfg st owner id amt) as [s|] eqn:E; [|discriminate]. injection H as <- _.
     eapply add_tokens_linv; eassumption.
+  - (* OLockTokens *) eapply lock_tokens_linv; eassumption.
+  - (* OLockAndDelegate *)
+    unfold lock_and_delegate, bind in H. destruct (lock_tokens cfg st owner denom amt (c_unb cfg)) as [[s1 i1]|] eqn:E1; [|discriminate].
+    cbn [fst snd] in H. destruct (superfluid_delegate cfg s1 owner i1 v) as [s|] eqn:E; [|discriminate]. injection H as <- _.
+    apply (lock_tokens_linv cfg) in E1; [|assumption]. eapply superfluid_delegate_linv; eassumption.
+  - (* OCreateAndDelegate *)
+    unfold create_and_delegate, bind in H. destruct (Z.leb_spec amt 0); [discriminate|].
+    match type of H with match ?c with _ => _ end = _ => destruct c as [s|] eqn:E; [|discriminate] end. injection H as <- _.
+    apply (superfluid_delegate_linv cfg) in E; [tauto|]. apply new_lock_linv; cbn; try assumption; try lia. apply W.
   - (* ODelegate *)
     destruct (superfluid_delegate cfg st sender id v) as [s|] eqn:E; [|discriminate]. injection H as <- _.
     eapply superfluid_delegate_linv; eassumption.
